@@ -3,7 +3,7 @@
     (so a replica seeing an older or newer state changes the result), internal shuffles and
     aggregations, nested loops, every bound and stop condition — on several deployments; the
     sink content must equal the round-by-round sequential meaning ([ev_replay],
-    [ev_iterate], [ONested] in Model/Pipe.v). *)
+    [ev_iterate], [ONested], [ONestedO] in Model/Pipe.v). *)
 From Noir Require Import Model.Pipe Corr.Canon.
 From Noir Require Corr.C01.
 From Coq Require Import NArith.
@@ -13,3 +13,6 @@ Definition prop_ok (c : case) : bool := C01.prop_ok c.
 Definition known_class (c : case) : N := C01.known_class c.
 Definition corr_ok (c : case) : bool := C01.corr_ok c.
 Definition report (cs : list case) := classify corr_ok prop_ok known_class cs.
+
+(** nested loops whose body reads the enclosing loop's state ([ONestedO]) *)
+Definition has_outer_read (c : case) : bool := C01.has_outer_read (C01.c_pipe c).
